@@ -144,7 +144,7 @@ def gtfReadLine (ff : FloatFmt Nat) (file : Bytes) : String :=
     match Gtf.lineKind line with
     | .comment => s!"kind=C {hex (line.drop 1)}"
     | .record =>
-      match bounds line with
+      match Gtf.tryNew line with
       | .error e => s!"kind=R {errStr e}"
       | .ok f =>
         let lazy := s!"seqid={hex f.seqid} source={hex f.source} type={hex f.ty} start={fmtExcept toString (parsePosition f.start)} end={fmtExcept toString (parsePosition f.end_)} score={fmtOptExcept toString (parseScore ff f.score)} strand={fmtExcept fmtStrand (Gtf.parseStrand f.strand)} phase={fmtOptExcept (fun p => fmtPhase (some p)) (parsePhase f.phase)} attrs={fmtExcept fmtAttrs (Gtf.parseAttrs f.attrs)}"
